@@ -56,6 +56,12 @@ class EnumGenerator:
         if keyword.iskeyword(sanitized_member_name.lower()):  # Check lowercase version for keyword
             sanitized_member_name += "_"
 
+        # Enum gives names with a leading underscore a meaning of their own: `_X_` is reserved (ValueError when the class
+        # is created), `__X__` is not turned into a member, `__X` is mangled in the class body and no member either.
+        # A value like "_all_" or "__init__" must not break the module or silently lose its member.
+        if sanitized_member_name.startswith("_"):
+            sanitized_member_name = f"MEMBER{sanitized_member_name}"
+
         # Final check for safety: if it's still not a valid start (e.g. _MEMBER_...)
         if not re.match(r"^[A-Z_]", sanitized_member_name.upper()):
             sanitized_member_name = f"MEMBER_{sanitized_member_name}"
